@@ -166,7 +166,7 @@ class BezierCurve(BaseCurve):
         while degree - times > 1:
             _, materror = Operations.degree_decrease(degree, times + 1)
             error = np.dot(points, np.dot(materror, points))
-            if tolerance and error > tolerance:
+            if tolerance and error > tolerance**2:
                 break
             times += 1
         if times == 0:
